@@ -115,6 +115,12 @@ def lit(v) -> Cell:
     if isinstance(v, float):
         from fractions import Fraction
 
+        if v != v:
+            raise Unsupported("NaN literal")
+        if v in (float("inf"), float("-inf")):
+            # larger in magnitude than every value of the bounded domain
+            return Cell(REAL, FALSE, z3.RealVal(("-" if v < 0 else "") + "1" + "0" * 400))
+
         fr = Fraction(v)
         return Cell(REAL, FALSE, z3.RealVal(f"{fr.numerator}/{fr.denominator}"))
     if isinstance(v, str):
